@@ -106,6 +106,7 @@ class FuncUnit(Unit):
         col = Collector()
         t0 = time.time()
         s0, q0 = STATS.solver_s, STATS.queries
+        b0 = dict(STATS.by_backend)
         if self.member is not None:
             contract = reg.families[self.qualname][1][self.member]
         else:
@@ -120,7 +121,7 @@ class FuncUnit(Unit):
         res.wall = time.time() - t0
         res.solver_s = STATS.solver_s - s0
         res.queries = STATS.queries - q0
-        res.by_backend = dict(STATS.by_backend)
+        res.by_backend = {k: v - b0.get(k, 0) for k, v in STATS.by_backend.items()}
         return res
 
 
@@ -145,13 +146,14 @@ class LemmaUnit(Unit):
         col = Collector()
         t0 = time.time()
         s0, q0 = STATS.solver_s, STATS.queries
+        b0 = dict(STATS.by_backend)
         verify_lemma(reg, self.name, self.module, self.params, self.requires, self.goal, col, setup=self.setup,
                      allow=self.allow)
         _collect(res, col, reg, self.name)
         res.wall = time.time() - t0
         res.solver_s = STATS.solver_s - s0
         res.queries = STATS.queries - q0
-        res.by_backend = dict(STATS.by_backend)
+        res.by_backend = {k: v - b0.get(k, 0) for k, v in STATS.by_backend.items()}
         return res
 
 
@@ -173,12 +175,13 @@ class CustomUnit(Unit):
         col = Collector()
         t0 = time.time()
         s0, q0 = STATS.solver_s, STATS.queries
+        b0 = dict(STATS.by_backend)
         self.fn(ctx, res, col, reg, *self.args)
         _collect(res, col, reg, self.name)
         res.wall = time.time() - t0
         res.solver_s = STATS.solver_s - s0
         res.queries = STATS.queries - q0
-        res.by_backend = dict(STATS.by_backend)
+        res.by_backend = {k: v - b0.get(k, 0) for k, v in STATS.by_backend.items()}
         return res
 
 
